@@ -67,6 +67,26 @@ theorem FailsE.step {s : St} {tr : List String} {pre i post} (h : At s pre i pos
   refine ⟨_, runLoop_step_err h (f + 1) st hse, ?_⟩
   rw [← htr]; exact restore_trace st se
 
+/-! ## … and without a bound on the number of instructions (loops) -/
+
+def ReachX (s s' : St) : Prop := ∃ K, ReachE K s s'
+def FailsX (s : St) (tr : List String) : Prop := ∃ K, FailsE K s tr
+
+theorem ReachE.toX {K : Nat} {s s' : St} (h : ReachE K s s') : ReachX s s' := ⟨K, h⟩
+theorem Reach.toX {K m : Nat} {s s' : St} (h : Reach K m s s') : ReachX s s' := h.toE.toX
+theorem ReachX.refl (s : St) : ReachX s s := (ReachE.refl s).toX
+theorem ReachX.trans {s s₁ s₂ : St} (h₁ : ReachX s s₁) (h₂ : ReachX s₁ s₂) : ReachX s s₂ := by
+  obtain ⟨K₁, h₁⟩ := h₁; obtain ⟨K₂, h₂⟩ := h₂; exact ⟨_, h₁.trans h₂⟩
+theorem FailsE.toX {K : Nat} {s : St} {tr} (h : FailsE K s tr) : FailsX s tr := ⟨K, h⟩
+theorem Fails.toX {K : Nat} {s : St} {tr} (h : Fails K s tr) : FailsX s tr := h.toE.toX
+theorem FailsX.of_reach {s s₁ : St} {tr} (h₁ : ReachX s s₁) (h₂ : FailsX s₁ tr) : FailsX s tr := by
+  obtain ⟨K₁, h₁⟩ := h₁; obtain ⟨K₂, h₂⟩ := h₂; exact ⟨_, FailsE.of_reach h₁ h₂⟩
+theorem ReachX.step {s s' : St} {pre i post} (h : At s pre i post) (m : Nat)
+    (hx : ∀ f, m ≤ f → (exec (f + 1) i).run s = (.ok (), s')) : ReachX s s' := (ReachE.step h m hx).toX
+theorem FailsX.step {s : St} {tr : List String} {pre i post} (h : At s pre i post) (m : Nat)
+    (hx : ∀ f, m ≤ f → ∃ se, (exec (f + 1) i).run s = (.error .err, se) ∧ se.trace = tr) : FailsX s tr :=
+  (FailsE.step h m hx).toX
+
 /-! ## What balanced code leaves alone -/
 
 structure Frame (s s' : St) : Prop where
